@@ -169,6 +169,23 @@ def property_checks(inp):
                 ref_ = numpy.array([float(numpy.asarray(f_(float(x_), *a_))) for x_ in rr_.ravel()]).reshape(shp)
                 worst_shape = max(worst_shape, float(numpy.max(numpy.abs(got_ - ref_) / numpy.maximum(numpy.abs(ref_), 1e-300))) if got_.shape == ref_.shape else float("inf"))
         A(("every function is elementwise on arrays of any shape (value = scalar call at that element)", worst_shape, 1e-5))
+        # a float32 (or float64) array of separations handed to one function after the other is still that array afterwards
+        worst_keep = 0.0
+        for dt_ in (numpy.float32, numpy.float64):
+            rk = (L0 * numpy.array([0.0, 3e-3, 0.02, 0.4, 1.3, 7.0])).astype(dt_); rk0 = rk.copy()
+            v1 = numpy.asarray(turb.phase_covariance(rk, r0, L0), dtype=float)
+            v2 = numpy.asarray(turb.phase_covariance(rk, r0, L0), dtype=float)
+            d1_ = numpy.asarray(sc.structure_function_vk(rk[1:], r0, L0), dtype=float); d2_ = numpy.asarray(sc.structure_function_vk(rk[1:], r0, L0), dtype=float)
+            kl.stf_vonKarman(rk[1:], L0); kl.stf_kolmogorov(rk); sc.structure_function_kolmogorov(rk, r0)
+            worst_keep = max(worst_keep, 0.0 if (numpy.array_equal(rk, rk0) and numpy.array_equal(v1, v2, equal_nan=True) and numpy.array_equal(d1_, d2_, equal_nan=True)) else 1.0)
+        A(("separation arrays (float32 / float64, with an exact zero) are left untouched and give the same values on a second call", worst_keep, 0.0))
+        # a caller that has asked NumPy to report underflow still gets the saturation value far beyond the outer scale
+        try:
+            with numpy.errstate(under="raise"):
+                far_ = float(sc.structure_function_vk(300. * L0, r0, L0)); fark = float(kl.stf_vonKarman(300. * L0, L0))
+            A(("saturation value far beyond L0 also when the caller has enabled underflow errors", max(abs(far_ / sat - 1), abs(fark / (0.17253 * L0 ** (5. / 3)) - 1)), 1e-6))
+        except FloatingPointError:
+            A(("saturation value far beyond L0 also when the caller has enabled underflow errors", float("inf"), 1e-6))
         # the names the package exports are these functions (a second definition shadowing one of them changes what users get)
         import aotools, aotools.turbulence as T_, aotools.functions as F_
         worst_pub, missing_pub = 0.0, 0
